@@ -45,6 +45,7 @@ const findingMul128 = "Uint128.Mul-overflow-only-in-w1*w1"
 func TestMain(m *testing.M) {
 	fatal.Install() // discards logrus output (casts and shifts log warnings), keeps panics observable
 	evid.Tests(
+		evid.Spec{Name: "FuzzLimbs", Kind: "fuzz", Thorough: 120, ThoroughOnly: true, QuickShards: 1, ThoroughShards: 1},
 		evid.Spec{Name: "TestReplay", Kind: "plain", QuickShards: 1, ThoroughShards: 1},
 		evid.Spec{Name: "TestGridSmall", Kind: "plain", QuickShards: 4, ThoroughShards: 4, TimeoutS: 3000},
 		evid.Spec{Name: "TestGrid256", Kind: "plain", QuickShards: 16, ThoroughShards: 32, TimeoutS: 3000},
